@@ -795,6 +795,34 @@ func gen(g *hx.Gen) {
 		g.Stat("seq.realtime")
 		g.Emit("seq mode=%s K=%s ops=%s", []string{"direct", "wire", "wirep"}[r.Intn(3)], kTable(sel), strings.Join(ops, ";"))
 	}
+	// lifetimes are exact, whatever the phase of the wall-clock second at which the key is added: Add at
+	// phase .85/.9 (and .05 as control), lifetime 2 s queried at +1.2 s (present) and +2.3 s (gone),
+	// lifetime 1 s queried at +0.5 s (present) and +1.3 s (gone); margins >= 300 ms on the correct code
+	nPh := 16
+	if g.Thorough() {
+		nPh = 64
+	}
+	for i := 0; i < nPh; i++ {
+		sel := pickSel(r)
+		k := r.Intn(len(sel))
+		var ops []string
+		for j := range sel {
+			if j != k && r.Bool() {
+				ops = append(ops, fmt.Sprintf("a.%d.0.0.0.%s", j, hx.Hex(genComment(r))))
+			}
+		}
+		ph := []int{850, 900, 50, 870}[i%4]
+		sg := fmt.Sprintf("s.%d.0.%s", k, hx.Hex(r.Bytes(4)))
+		if i%2 == 0 {
+			ops = append(ops, fmt.Sprintf("p.%d", ph), fmt.Sprintf("a.%d.2.0.0.%s", k, hx.Hex(genComment(r))), "y.1200", "L", sg, "y.1100", "L", sg)
+			g.Stat("rt.phase-lifetime2")
+		} else {
+			ops = append(ops, fmt.Sprintf("p.%d", ph), fmt.Sprintf("a.%d.1.0.0.%s", k, hx.Hex(genComment(r))), "y.500", "L", sg, "y.800", "L", sg)
+			g.Stat("rt.phase-lifetime1")
+		}
+		g.Stat(fmt.Sprintf("pair.lifetime+phase%d", ph))
+		g.Emit("seq mode=%s K=%s ops=%s", []string{"direct", "wire", "wirep"}[i%3], kTable(sel), strings.Join(ops, ";"))
+	}
 	if g.Thorough() { // real one-second lifetimes
 		for i := 0; i < 48; i++ {
 			sel := pickSel(r)
@@ -1087,6 +1115,12 @@ func doOp(ag agent.ExtendedAgent, t []ident, op string) string {
 		return "z"
 	case "y":
 		time.Sleep(time.Duration(atoi(f[1])) * time.Millisecond)
+		return "z"
+	case "p": // wait until the wall clock is at that many milliseconds into a second
+		target := atoi(f[1])
+		now := time.Now()
+		d := (target - now.Nanosecond()/1e6 + 1000) % 1000
+		time.Sleep(time.Duration(d)*time.Millisecond + 2*time.Millisecond)
 		return "z"
 	}
 	panic("bad op " + op)
